@@ -7,7 +7,7 @@
 #include <sys/resource.h>
 
 static char basedir[128];
-static long n_flood_sends, n_flood_refused, n_gave_up;
+static long n_flood_sends, n_flood_refused, n_gave_up, n_deferred_wakeups;
 static long n_conns, n_msgs_checked, n_resp_checked, n_events_checked, n_refused_sends, n_emsgsize, n_poll_probes, n_server_runs, n_fc_eagain, n_event_eagain;
 
 static void rm_rf(const char *d) { char cmd[300]; if (getenv("VP_KEEP")) return; snprintf(cmd, sizeof cmd, "rm -rf %s", d); if (system(cmd)) {} }
@@ -71,7 +71,15 @@ static uint32_t mkseq(int idx, uint32_t n) { return ((uint32_t)idx << 24) | (n &
 struct evstate { uint32_t next; long known_pending; int dead; };
 static ssize_t take_event(qb_ipcc_connection_t *c, unsigned char *rbuf, size_t maxsz, int tmo, struct evstate *es, int fd, int probe, const char *tag)
 {
-	if (probe) { struct pollfd pf = { fd, POLLIN, 0 }; int pr = poll(&pf, 1, 0); bed_log(L_C_POLL, 0, es->known_pending, pr > 0 && (pf.revents & POLLIN), 0, 0, NULL); }
+	if (probe) {
+		/* "readable while an event is queued": with deferred wake-up bytes (full notification socket) there is a moment between
+		 * the client taking the last byte and the server's next turn in which nothing is pending on the descriptor.  What a
+		 * polling client needs is that the wake-up is not LOST: the descriptor becomes readable without any further help.
+		 * 5 s is a watchdog for "never", not a latency requirement */
+		struct pollfd pf = { fd, POLLIN, 0 }; int pr = poll(&pf, 1, 0); int rd = pr > 0 && (pf.revents & POLLIN), waited = 0;
+		if (!rd && es->known_pending > 0) { waited = 1; pf.revents = 0; pr = poll(&pf, 1, 5000); rd = pr > 0 && (pf.revents & POLLIN); }
+		bed_log(L_C_POLL, 0, es->known_pending, rd, waited, 0, NULL);
+	}
 	ssize_t rc = qb_ipcc_event_recv(c, rbuf, maxsz, tmo);
 	struct tp_res *e = (struct tp_res *)rbuf; int ok = -1;
 	if (rc >= (ssize_t)TP_RES_MIN) { ok = e->plen + TP_RES_MIN == (size_t)rc && tp_cksum(e->payload, e->plen) == e->cksum && e->hdr.size == rc; if (es->known_pending > 0) es->known_pending--; }
@@ -146,6 +154,30 @@ static void client_c02(const struct cl_cfg *cc, const char *dir)
 				if (retry_budget > 150000) { bed_log(L_C_NOTE, 0, retry_budget, 0, 0, 0, "gave-up-retrying"); dead = 2; }
 				if (frc != (ssize_t)len) break;   /* a refused flood message ends the flood: the rest would only pile up behind it */
 			}
+			continue;
+		}
+		else if (k < 87) { /* two features at once: a backlog of unread events larger than the wake-up socket holds, and request flow
+			 * control switched on while it exists.  The events must still reach the client (descriptor readable while any is queued) */
+			for (int part = 0; part < 2 && !dead; part++) {
+				memset(q, 0, sizeof *q); n++; len = TP_REQ_MIN;
+				if (part == 0) { q->op = OP_EVENTS; q->arg1 = 300 + vp_u(&r, 150); q->arg2 = (uint32_t)TP_RES_MIN; }
+				else { q->op = OP_RATE; q->arg1 = vp_chance(&r, 1, 2) ? QB_IPCS_RATE_OFF : QB_IPCS_RATE_OFF_2; }
+				q->hdr.id = QB_IPC_MSG_USER_START + 1 + (int32_t)(n % 50); q->hdr.size = (int32_t)len; q->seq = mkseq(cc->idx, n); q->plen = 0; q->cksum = tp_cksum(q->payload, 0);
+				ssize_t brc; int bt = 0;
+				for (;;) { brc = qb_ipcc_send(c, q, len); bed_log(L_C_SEND, 0, q->seq, (int64_t)len, brc, q->op, "backlog-under-fc"); if ((brc == -EAGAIN || brc == -ENOBUFS || brc == -ETIMEDOUT) && ++bt < 4000 && ++retry_budget <= 150000) { usleep(300); continue; } break; }
+				if (brc == (ssize_t)len) expect_resp[nexp++ & 4095] = q->seq;
+				else if (brc == -ENOTCONN || brc == -ECONNRESET || brc == -EPIPE || brc == -ESHUTDOWN || brc == -EBADF) dead = 1;
+			}
+			/* answers first (they say how many events there are), then the events, probing the descriptor before each */
+			while (!dead && hexp < nexp) {
+				ssize_t rr = wait_response(c, rbuf, ebuf, maxsz, &es, fd, 400); struct tp_res *s2 = (struct tp_res *)rbuf; int ok2 = -1;
+				if (rr >= (ssize_t)TP_RES_MIN) ok2 = s2->plen + TP_RES_MIN == (size_t)rr && tp_cksum(s2->payload, s2->plen) == s2->cksum && s2->hdr.size == rr;
+				if (rr >= 0 || (rr != -EAGAIN && rr != -ETIMEDOUT)) bed_log(L_C_RECV, 0, rr >= (ssize_t)TP_RES_MIN ? s2->seq : 0, rr, ok2, expect_resp[hexp & 4095], NULL);
+				if (rr < 0) { if (rr != -EAGAIN && rr != -ETIMEDOUT) dead = 1; break; }
+				if (rr >= (ssize_t)TP_RES_MIN && s2->arg2) { ev_acked_total += s2->arg1; es.known_pending = (long)s2->arg2 - (long)es.next; if (es.known_pending < 0) es.known_pending = 0; }
+				hexp++;
+			}
+			for (int g = 0; g < 600 && !dead && es.known_pending > 0; g++) { take_event(c, rbuf, maxsz, 300, &es, fd, 1, NULL); if (es.dead) dead = 1; }
 			continue;
 		}
 		else if (k < 92) { /* receive side work */
@@ -305,7 +337,7 @@ static void case_c02(long kase)
 			if (neag || refused) nontrivial = 1;
 		}
 		/* pollability: known-pending events => fd readable */
-		for (long k = 0; k < nc; k++) if (C[k].kind == L_C_POLL) { n_poll_probes++; if (C[k].a > 0 && C[k].b == 0) { snprintf(key, sizeof key, "ipc:fd-not-readable-with-event-queued:%s", sc.type == QB_IPC_SHM ? "shm" : "socket"); vp_violation(key, "client %d: %lld events known to be queued and unread, poll() says not readable [%s]", i + 1, (long long)C[k].a, vp.cur_desc); break; } }
+		for (long k = 0; k < nc; k++) if (C[k].kind == L_C_POLL) { n_poll_probes++; if (C[k].a > 0 && C[k].c) n_deferred_wakeups++; if (C[k].a > 0 && C[k].b == 0) { snprintf(key, sizeof key, "ipc:fd-not-readable-with-event-queued:%s", sc.type == QB_IPC_SHM ? "shm" : "socket"); vp_violation(key, "client %d: %lld events known to be queued and unread, poll() says not readable, also after waiting 5 s (lost wake-up) [%s]", i + 1, (long long)C[k].a, vp.cur_desc); break; } }
 		h = vp_hash_u64(h, (uint64_t)refused * 3 + (uint64_t)wrapped);
 		free(C);
 	}
@@ -340,7 +372,7 @@ int main(int argc, char **argv)
 	}
 	rm_rf(basedir);
 	vp_count("private_dev_shm", private_shm); vp_count("server_runs", n_server_runs); vp_count("connections", n_conns); vp_count("requests_checked", n_msgs_checked); vp_count("responses_checked", n_resp_checked);
-	vp_count("flood_sends_at_stalled_server", n_flood_sends); vp_count("flood_sends_refused", n_flood_refused); vp_count("clients_that_gave_up_retrying", n_gave_up); vp_count("events_checked", n_events_checked); vp_count("sends_refused_and_retried", n_refused_sends); vp_count("sends_refused_by_flow_control", n_fc_eagain);
+	vp_count("flood_sends_at_stalled_server", n_flood_sends); vp_count("flood_sends_refused", n_flood_refused); vp_count("clients_that_gave_up_retrying", n_gave_up); vp_count("probes_readable_only_after_the_servers_next_turn", n_deferred_wakeups); vp_count("events_checked", n_events_checked); vp_count("sends_refused_and_retried", n_refused_sends); vp_count("sends_refused_by_flow_control", n_fc_eagain);
 	vp_count("oversize_sends_refused", n_emsgsize); vp_count("poll_probes", n_poll_probes); vp_count("event_sends_refused_at_server", n_event_eagain);
 	extra_counts();
 	vp_finish();
